@@ -30,6 +30,10 @@ var connectionInitiationDelayTimeRanges = []connectionInitiationDelayTimeRange{
 type Hub struct {
 	connections map[string]api.ShipConnectionInterface
 
+	// the connection of a SKI the application was told about last via SetupRemoteDevice.
+	// With double connections this does not have to be the registered one
+	setupConnections map[string]any
+
 	// which attempt is it to initate an connection to the remote SKI
 	connectionAttemptCounter map[string]int
 	connectionAttemptRunning map[string]bool
@@ -79,6 +83,7 @@ func NewHub(hubReader api.HubReaderInterface,
 	localService *api.ServiceDetails) *Hub {
 	hub := &Hub{
 		connections:              make(map[string]api.ShipConnectionInterface),
+		setupConnections:         make(map[string]any),
 		connectionAttemptCounter: make(map[string]int),
 		connectionAttemptRunning: make(map[string]bool),
 		remoteServices:           make(map[string]*api.ServiceDetails),
